@@ -14,7 +14,7 @@ CHECKS = {
          "Each generated request (incl. an adversarial path/header pool) is dispatched with tracing off and on; a monitor checks no panic, <=1 invocation, and that the observed class (invoke/404/405+Allow/415/406) is admitted by a reference staged elimination over the best-matching root. Held on what was observed.",
          "Exact-class verdicts only where the reference is determinate (three-valued); weak mode for incomparable roots / RouterJSR311 variable roots as the property states.", "DESIGN §6 C02"),
  "C03": ("exploration", "metamorphic monitor: registration-order permutations + alone-eligibility specificity oracle using the real code",
-         "The same table is built under several registration orders and every request must get the same outcome; for each selected route/root the real code itself (container with only the competitor) says which competitors are eligible, and none may dominate the selection.", "Domain restricted exactly as the property excludes (same-shape variable roots, same-method templates differing only in names).", "DESIGN §6 C03"),
+         "The same table is built under several registration orders and every request must get the same outcome; for each selected route/root the real code itself (container with only the competitor) says which competitors are eligible, and none may dominate the selection. Plus pairs of CurlyRouter root paths over all literal/variable shapes of 1-5 segments, registered in both orders and probed with URLs both match.", "Domain restricted exactly as the property excludes (same-shape variable roots, same-method templates differing only in names).", "DESIGN §6 C03"),
  "C04": ("exploration", "reference-binding monitor inside invoked handlers + substitution round-trip law",
          "PathParameters() seen by every invoked generated handler is compared with the reference binding of the URL text and substituted back into the template.", "RouterJSR311 wildcard values compared modulo a trailing slash.", "DESIGN §6 C04"),
  "C05": ("exploration", "reference Accept ranker monitor on written entities + whitespace/repetition metamorphic relations",
@@ -34,10 +34,10 @@ CHECKS = {
          "Panics are injected at every enumerated chain position (each filter before/after passing control, handler before/between/after writes, error handler) x recovery x coding x provider x entry point; monitors check single delivery to the recover handler, status/body completeness, propagation when recovery is off, compressor ledger balance, and unchanged answers to follow-up probes plus Add/Remove.",
          "HandleWithFilter excluded (the property speaks of routed dispatch).", "DESIGN §6 C10"),
  "C11": ("exploration", "history-vs-fresh differential monitor over generated registration histories",
-         "Random histories over Add/Remove/Route/RemoveRoute/Handle on colliding root paths; after prefixes of the history a fresh container is built from the model and both must answer a derived probe set identically via ServeHTTP and Dispatch; Add must never panic/exit.",
+         "Random histories over Add/Remove/Route/RemoveRoute/Handle on colliding root paths (also 33/70 services, once per process a container on http.DefaultServeMux); after every operation a fresh container is built from the model and both must answer a derived probe set identically via ServeHTTP and Dispatch; where an executable reference of the ServeMux registration policy says the framework owns a clean URL, ServeHTTP and Dispatch of the history-built container must answer alike; Add must never panic/exit and every registration call runs under a goroutine-state watchdog.",
          "Histories never add duplicate roots (library exits by contract).", "DESIGN §6 C11"),
  "C12": ("exploration", "Go race detector + porcupine linearizability check of client-boundary histories (per-key register over generations) + stable-probe and blocked-goroutine monitors",
-         "Mutator goroutines Add/Remove services and Route/RemoveRoute routes with unique generations while reader goroutines probe; race reports with a go-restful frame, non-linearizable per-key histories, wrong stable answers, panics and state-detected deadlocks are violations.",
+         "Mutator goroutines (4, 12 or 20) Add/Remove services and Route/RemoveRoute routes with unique generations while reader goroutines probe; race reports with a go-restful frame, non-linearizable per-key histories, wrong stable answers, answers that ran a filter chain other than their own, panics and state-detected deadlocks are violations.",
          "Schedules are not reproducible; evidence reports overlapping operations actually observed.", "DESIGN §6 C12"),
  "C13": ("exploration", "instrumenting CompressorProvider ledger + stale-reference trip-wire + porcupine per-object mutex history + release-storm blocked-goroutine detector; race detector on",
          "Wraps sync.Pool, bounded(0,1,2,8) and a custom provider; checks exclusive ownership, exactly-once release, no use after release, no blocking (state-based), and that concurrent encoded responses / gzip request bodies decode to their own payload.",
@@ -45,18 +45,22 @@ CHECKS = {
  "C14": ("exploration", "metamorphic monitor: paired dispatch of p and p/ on the same container",
          "All request kinds of C02 as pairs (p, p/) on generated tables; status, route, parameters and Allow set must be equal.", "RouterJSR311 tables without tail wildcard, default path strategy.", "DESIGN §6 C14"),
  "C15": ("fault_enumeration", "counting/failing ResponseWriter with enumerated fault positions under generated write-call sequences",
-         "For generated sequences of Response writing calls, the underlying writer accepts exactly k bytes then fails, for every k at and inside call boundaries; StatusCode()/ContentLength() read by a trailing filter and the returned errors are compared with what the writer received.", "At most one status-setting call, first (as the property states).", "DESIGN §6 C15"),
+         "For generated sequences of Response writing calls, the underlying writer accepts exactly k bytes then fails, for every k at and inside call boundaries (sampled around call boundaries and powers of two for outputs beyond 5 000 bytes); StatusCode()/ContentLength() read by a trailing filter and the returned errors are compared with what the writer received; three responses beyond 2 GiB / 4 GiB are counted.", "At most one status-setting call, first (as the property states).", "DESIGN §6 C15"),
  "C16": ("exploration", "round-trip monitor over generated values and corrupt-body histories, sequential and concurrent (race detector on)",
          "Values of a generated struct family are written by the framework's writer, optionally compressed, posted to an echo route and compared after ReadEntity; broken bodies must give errors, never panics, and never disturb the next well-formed request.", "Error demanded only when a stdlib reference decode shows the document incomplete/invalid.", "DESIGN §6 C16"),
  "C17": ("exploration", "differential monitor: 405 Allow and OPTIONSFilter answers vs per-method probes on a filter-less twin",
-         "For generated tables on the common fragment and derived URLs, S(u) is measured by probing each method; every 405 Allow set and the OPTIONS filter's Allow/Access-Control-Allow-Methods must equal S(u); OPTIONS runs no route function; other methods untouched.", "Clean URLs only.", "DESIGN §6 C17"),
+         "For generated tables on the common fragment and derived URLs, S(u) is measured by probing each method; every 405 Allow set and the OPTIONS filter's Allow/Access-Control-Allow-Methods must equal S(u); OPTIONS runs no route function; other methods untouched; OPTIONS requests for different URLs from 8 goroutines at once get the answers they get alone.", "Clean URLs only.", "DESIGN §6 C17"),
  "C18": ("exploration", "N-version monitor: twin containers differing only in router",
          "Every generated request on the common fragment is sent to a CurlyRouter and a RouterJSR311 container built from the same table; status, route, parameters and Allow set must agree.",
-         "Known finding: ranking of crossing templates (each has a literal where the other has a variable) differs (KNOWN_FINDINGS.txt, sig c18:rank-incomparable); disagreements on identical, same-shape or comparable templates are reported.", "DESIGN §6 C18"),
+         "Known finding: ranking of crossing templates (each has a literal where the other has a variable) differs where each router follows its own key (KNOWN_FINDINGS.txt, sig c18:rank-incomparable); disagreements on identical, same-shape or comparable templates, and picks against a router's own key, are reported.", "DESIGN §6 C18"),
  "C19": ("exploration", "fresh-container reference differential over sequential histories, barrier-released concurrent batches and trace on/off; race detector on",
          "Each request's response and handler-side observations on a long-lived, concurrently used container must equal what a fresh container gives that request alone through the same entry point.", "Reference per (request, entry point).", "DESIGN §6 C19"),
 }
 
+KF = [l for l in open(os.path.join(ROOT, "KNOWN_FINDINGS.txt")) if not l.startswith("#")]
+NFIXED = len([l for l in KF if l.startswith("fixed:")])
+NKNOWN = len([l for l in KF if l.startswith("known:")])
+NSEEDED = len([d for d in os.listdir(os.path.join(ROOT, "seeded")) if os.path.exists(os.path.join(ROOT, "seeded", d, "meta.json"))])
 DONE = [l.strip() for l in open(os.path.join(ROOT, "CLAIMED.txt")) if l.strip() and not l.startswith("#")]
 
 manifest = {
@@ -75,7 +79,7 @@ manifest = {
  ],
  "checks": [],
  "not_applicable": [],
- "notes": "Technique family: runtime monitoring and sanitizers. Genuine defects repaired by fix: commits in /repo (12) and recorded findings (2) are listed in KNOWN_FINDINGS.txt; DESIGN.md section 2. Calibration: 240 seeded changes under seeded/ (tools_seeded.py detect <id>), DESIGN.md section 8.",
+ "notes": "Technique family: runtime monitoring and sanitizers. Genuine defects repaired by fix: commits in /repo (%d) and recorded findings (%d) are listed in KNOWN_FINDINGS.txt; DESIGN.md section 2. Calibration: %d seeded changes under seeded/ (tools_seeded.py detect <id>; SEEDED.md), DESIGN.md section 8." % (NFIXED, NKNOWN, NSEEDED),
 }
 for pid in sorted(CHECKS):
     level, tech, text, note, ref = CHECKS[pid]
